@@ -78,6 +78,14 @@ chk("C15", "client-boundary round-trip oracle on the real serialize_problem/dese
     "all/random orders of rooms and cells; decode(encode(v)) == v up to the canonical ordering of rooms, exact consumption, and every leaf call reads back what it wrote.",
     "values are generated structurally inside each combinator's domain; DecInt followed by a digit is not generated", "DESIGN.md §3 C15")
 
+chk("C16", "client-boundary oracle on every serialize_*/deserialize_*/..._url function of the puzzle modules: round trip, URL head, independent pzpr decoder, legacy-vs-combinator text",
+    "Generated problems of each module's format on boards 1..12 x 1..12 (non-square both ways): decode(encode(p)) == p with dimensions, head name/W/H, "
+    "body re-read by an independent decoder written from the pzpr conventions, legacy encoders vs combinator codecs identical.",
+    "refs/pzpr.py is my reading of the pzpr encodings (Appendix B); not cross-checked against the real pzpr.js offline", "DESIGN.md §3 C16")
+chk("C17", "contract on every deserializer under hostile workloads: grammar-aware URL mutation, random URL-alphabet and Unicode text, large boards, direct combinator calls; thorough adds atheris coverage-guided fuzzing",
+    "Outcome must be None / ValueError / a problem with the URL's dimensions that re-encodes and whose canonical text decodes to itself; ~10^5 strings quick, "
+    "10^7 + libFuzzer thorough; witness = the string.", "allowed outcomes exactly as stated by the property; env dimensions >= 1 for direct combinator calls", "DESIGN.md §3 C17")
+
 MANIFEST = dict(
     version=1,
     setup_cmd="./setup.sh",
